@@ -213,6 +213,61 @@ pub fn random_text() -> BoxedStrategy<String> {
         .boxed()
 }
 
+/// an edit near the start or the end of the text, from the characters that matter there
+pub fn edge_edit() -> BoxedStrategy<Edit> {
+    let ch = select(vec!['v', 'V', ' ', '\t', '-', '+', '.', '0', '1', 'a', '=', '\n']);
+    // positions 0..2 from the start, or (encoded as 1000+k) k from the end
+    let pos = prop_oneof![3 => 0usize..3, 2 => (0usize..3).prop_map(|k| 1000 + k)];
+    prop_oneof![
+        2 => (pos.clone(), ch.clone()).prop_map(|(i, c)| Edit::Ins(i, c)),
+        1 => (pos.clone(), ch).prop_map(|(i, c)| Edit::Rep(i, c)),
+        1 => pos.prop_map(Edit::Del),
+    ]
+    .boxed()
+}
+
+fn apply_edge_edits(s: &str, edits: &[Edit]) -> String {
+    // translate the 1000+k encoding into an index counted from the end
+    let mut cur = s.to_string();
+    for e in edits {
+        let n = cur.chars().count();
+        let fix = |i: usize, ins: bool| {
+            if i >= 1000 {
+                let k = i - 1000;
+                if ins {
+                    n.saturating_sub(k)
+                } else {
+                    n.saturating_sub(k + 1)
+                }
+            } else {
+                i
+            }
+        };
+        let e2 = match e {
+            Edit::Ins(i, c) => Edit::Ins(fix(*i, true).min(n), *c),
+            Edit::Rep(i, c) => Edit::Rep(fix(*i, false), *c),
+            Edit::Del(i) => Edit::Del(fix(*i, false)),
+        };
+        // apply_edits reduces indices modulo the length; ours are already in range
+        cur = apply_edits(&cur, &[e2]);
+    }
+    cur
+}
+
+/// (prime, text): `prime` is one spelling of a version, `text` another spelling of the SAME version with
+/// 0..=2 edits at its edges.  Parsing `prime` first must not influence the verdict on `text`
+/// (no answer may depend on the call history: caches, memoised last results, thread-local state).
+pub fn primed_text() -> BoxedStrategy<(String, String)> {
+    (
+        prop_oneof![3 => gv::small_mversion(), 1 => gv::mversion()],
+        gv::spelling(),
+        gv::spelling(),
+        prop_oneof![1 => Just(vec![]), 4 => proptest::collection::vec(edge_edit(), 1..=2)],
+    )
+        .prop_map(|(v, sp1, sp2, edits)| (gv::spell(&v, &sp1), apply_edge_edits(&gv::spell(&v, &sp2), &edits)))
+        .boxed()
+}
+
 pub fn run_domains<F>(cfg: &RunCfg, id: &str, run: &mut PropRun, check: F)
 where
     F: Fn(&String, &mut Stats) -> Result<(), Failure> + Sync,
@@ -269,11 +324,19 @@ where
     run.absorb(out);
     let out = campaign(cfg, id, "token-soup", cfg.pick(100_000, 2_000_000), || gs::soup(12), &check);
     run.absorb(out);
+    // (e) history independence: parse a sibling spelling first, then judge the text as usual
+    let out = campaign(cfg, id, "primed-text", cfg.pick(300_000, 6_000_000), primed_text, |c: &(String, String), st: &mut Stats| {
+        let _ = guard(|| Version::parse(&c.0).is_ok());
+        let _ = guard(|| nodejs_semver::Range::parse(&c.0).is_ok());
+        st.class("primed-with-sibling-spelling");
+        check(&c.1, st)
+    });
+    run.absorb(out);
 }
 
 pub fn run(cfg: &RunCfg) -> PropRun {
     let mut run = PropRun::default();
-    run.rule = "strings fed to Version::parse / FromStr / serde: (a) every string up to length 7 (quick) / 8 (thorough) over the 9-symbol alphabet \"019.-+av \" enumerated; (b) every single edit of generated canonical versions over a 58-character alphabet (ASCII token classes, control and multi-byte characters, characters whose low byte is ASCII); (c) a length/integer limit family (MAX_LENGTH-2..+4, MAX_SAFE_INTEGER-1..+1, u64::MAX, 2^64); (d) proptest spelled versions with 0..2 edits and token soup. Oracle: independent three-class recogniser (MUST accept with exactly the denoted fields / MAY accept (blanks, v prefix, hyphenless prerelease) / MUST reject). Non-trivial = accepted, or rejected although a proper prefix is a canonical version; distinct by input string.".into();
+    run.rule = "strings fed to Version::parse / FromStr / serde: (a) every string up to length 7 (quick) / 8 (thorough) over the 9-symbol alphabet \"019.-+av \" enumerated; (b) every single edit of generated canonical versions over a 58-character alphabet (ASCII token classes, control and multi-byte characters, characters whose low byte is ASCII); (c) a length/integer limit family (MAX_LENGTH-2..+4, MAX_SAFE_INTEGER-1..+1, u64::MAX, 2^64); (d) proptest spelled versions with 0..2 edits and token soup; (e) primed pairs: one spelling of a version is parsed first, then another spelling of the same version with 0..2 edits at its edges is judged (the verdict may not depend on the call history). Oracle: independent three-class recogniser (MUST accept with exactly the denoted fields / MAY accept (blanks, v prefix, hyphenless prerelease) / MUST reject). Non-trivial = accepted, or rejected although a proper prefix is a canonical version; distinct by input string.".into();
     run.assumptions = vec![
         "surrounding blanks, a leading v/V (+blanks) and a prerelease written without '-' are treated as MAY-accept: the statement leaves their acceptance open".into(),
         "an all-digit identifier with leading zeros may be read as number or as text".into(),
@@ -282,7 +345,14 @@ pub fn run(cfg: &RunCfg) -> PropRun {
     run
 }
 
-pub fn replay(_campaign: &str, case: &Value) -> Result<(), Failure> {
-    let s: String = serde_json::from_value(case.clone()).map_err(|e| Failure::new("bad-replay", e.to_string()))?;
+pub fn replay(campaign: &str, case: &Value) -> Result<(), Failure> {
+    let bad = |e: serde_json::Error| Failure::new("bad-replay", e.to_string());
+    if campaign == "primed-text" {
+        let (prime, s): (String, String) = serde_json::from_value(case.clone()).map_err(bad)?;
+        let _ = guard(|| Version::parse(&prime).is_ok());
+        let _ = guard(|| nodejs_semver::Range::parse(&prime).is_ok());
+        return check_string(&s, &mut Stats::default());
+    }
+    let s: String = serde_json::from_value(case.clone()).map_err(bad)?;
     check_string(&s, &mut Stats::default())
 }
